@@ -166,7 +166,7 @@ func (m *Machine) feasible(c *Term) bool {
 		m.filterHits++
 		return ans
 	}
-	r, _ := m.solver.Sat(append(append([]*Term{}, m.pc...), c), nil)
+	r, _ := m.solver.Sat(m.pc, nil, c)
 	if r == resUnknown {
 		m.unknown = true
 		m.ex.noteUnknown("feasibility")
@@ -662,17 +662,15 @@ func (m *Machine) concIntF(fr *frame, v Value) int {
 	var vals []uint64
 	extra := []*Term{}
 	for len(vals) < 513 {
-		conj := append(append([]*Term{}, m.pc...), extra...)
-		probe := bvVar("zz_probe", i.T.W)
-		conj = append(conj, tEq(probe, i.T))
-		r, model := m.solver.Sat(conj, []*Term{probe})
+		probe := bvVar(fmt.Sprintf("zz_probe%d", i.T.W), i.T.W)
+		r, model := m.solver.Sat(m.pc, []*Term{probe}, append(append([]*Term{}, extra...), tEq(probe, i.T))...)
 		if r == resUnknown {
 			unsupported("solver unknown while concretising %s", i.T.str)
 		}
 		if r == resUnsat {
 			break
 		}
-		x := model["zz_probe"]
+		x := model[probe.Name]
 		vals = append(vals, x)
 		extra = append(extra, tNot(tEq(i.T, bvConst(x, i.T.W))))
 	}
